@@ -34,14 +34,16 @@ INTERVALS = {
     "integer": (-(2**31), 2**31 - 1),
     "bigint": (-(2**63), 2**63 - 1),
 }
-COLUMN_RE = re.compile(r'^\s+(?P<name>"[^"]+"|[A-Za-z_][A-Za-z0-9_]*) (?P<type>[a-z0-9]+)(?:\((?P<a>\d+)(?:, (?P<b>\d+))?\))?(?P<notnull> not null)?(?P<default> default .*)?,?$')
+COLUMN_RE = re.compile(r'^\s*(?P<name>"[^"]+"|[A-Za-z_][A-Za-z0-9_]*)\s+(?P<type>[A-Za-z0-9]+)\s*(?:\(\s*(?P<a>\d+)\s*(?:,\s*(?P<b>\d+)\s*)?\))?'
+                       r'(?P<notnull>\s+not\s+null)?(?P<default>\s+default\s+.*?)?\s*,?\s*$', re.IGNORECASE)
 
 
 def parse_ddl(text):
-    lines = text.split("\n")
-    if not lines[0].startswith("create table ") or not lines[0].endswith("("):
+    """Columns of a 'create table <name> ( <one column per line> );' statement; tolerant about case and white space."""
+    lines = [line for line in text.strip().split("\n") if line.strip()]
+    if not lines or not re.match(r"^\s*create\s+table\s+\S+\s*\($", lines[0], re.IGNORECASE):
         return None
-    if lines[-1] != ");":
+    if not re.match(r"^\s*\)\s*;?\s*$", lines[-1]):
         return None
     columns = []
     for line in lines[1:-1]:
@@ -49,7 +51,7 @@ def parse_ddl(text):
         if not m:
             return None
         name = m.group("name")
-        columns.append({"name": name.strip('"'), "quoted": name.startswith('"'), "type": m.group("type"),
+        columns.append({"name": name.strip('"'), "quoted": name.startswith('"'), "type": m.group("type").lower(),
                         "a": int(m.group("a")) if m.group("a") else None, "b": int(m.group("b")) if m.group("b") else None,
                         "notnull": m.group("notnull") is not None})
     return columns
